@@ -162,7 +162,8 @@ def run(ctx):
                         methods[m] = methods.get(m, 0) + 1
                 elif l.startswith("stuck ") or l.startswith("codec-mismatch"):
                     ctx.notes.append("driver observation: " + l)
-            scen_info["%s seed=%d" % (s, sd)] = {"rounds": n, "reports": len(reps), "rc": rc}
+            scen_info["%s seed=%d" % (s, sd)] = {"rounds": n, "reports": len(reps), "rc": rc,
+                                                 "succeeded_calls": done[0].split(" ok: ", 1)[1] if done and " ok: " in done[0] else ""}
             if not reps and rc != 66:
                 lines.append("scen %s seed=%d rounds=%d\tclean" % (s, sd, n))
             for r in reps:
